@@ -2,7 +2,7 @@
    closed-form program, under the product-state semantics. *)
 From Coq Require Import ZArith List Bool Lia ZifyBool.
 Import ListNotations.
-From QCE Require Import Base.Prelude C09.Stim C09.Spec C09.Sem C09.Model C09.ProofsSem C09.ProofsRound C09.ProofsBits.
+From QCE Require Import Base.Prelude C09.Stim C09.Spec C09.Sem C09.Model C09.Wf C09.ProofsSem C09.ProofsRound C09.ProofsBits.
 Open Scope Z_scope.
 Ltac Zify.zify_post_hook ::= Z.to_euclidean_division_equations.
 
